@@ -228,7 +228,9 @@ func (memPool *MemPool) Conflicting(tx *wire.MsgTx) []bitcoin.Hash32 {
 	// Check for conflicting inputs
 	for _, input := range tx.TxIn {
 		if list, exists := memPool.inputs[*input.PreviousOutPoint.OutpointHash()]; exists {
-			for _, hash := range list {
+			// removeTransaction edits the list in place, so iterate over a copy of it.
+			spenders := append([]bitcoin.Hash32(nil), list...)
+			for _, hash := range spenders {
 				result = append(result, hash)
 				memPool.removeTransaction(hash)
 			}
